@@ -9,6 +9,7 @@
 package main
 
 import (
+	"strings"
 	"fmt"
 	"math"
 	"time"
@@ -250,6 +251,106 @@ func cliPair(a, b cliOp, bound int, retries ...bool) *vx.Scenario {
 	return sc
 }
 
+// ---------------------------------------------------------------- client operations issued from inside client-side handlers
+//
+// where: the handler the operation is issued from - the manager's error handler after a failed dial (the link is
+// down from the start; with and without reconnection), the socket's connect / disconnect / connect_error
+// handlers, an event handler, an acknowledgement callback.
+var cliHandlerOps = []cliOp{
+	{"Manager.Close", func(w *cliWorld) { w.mgr.Close() }},
+	{"Disconnect", func(w *cliWorld) { w.sock.Disconnect() }},
+	{"Emit", func(w *cliWorld) { w.sock.Emit("m", 1) }},
+	{"Emit+ack", func(w *cliWorld) { w.sock.Emit("ma", 1, hAck) }},
+	{"Connect", func(w *cliWorld) { w.sock.Connect() }},
+	{"other-socket-Disconnect", func(w *cliWorld) { w.sockB.Disconnect() }},
+	{"OffEvent+OnEvent", func(w *cliWorld) { w.sock.OffEvent("n"); w.sock.OnEvent("n", hEvent) }},
+}
+
+func cliInHandler(where string, op cliOp, bound int) *vx.Scenario {
+	sc := &vx.Scenario{Name: "client-in-handler/" + where + "/" + op.name, Bound: bound, Horizon: 40 * time.Second}
+	sc.Body = func(e *vsched.Exec) func() vx.Result {
+		vsched.SetExploring(false)
+		w := &cliWorld{}
+		mcfg := &sio.ManagerConfig{NoReconnection: true}
+		if where == "manager-error-while-reconnecting" {
+			mcfg = &sio.ManagerConfig{ReconnectionAttempts: 2, ReconnectionDelay: &[]time.Duration{time.Second}[0], ReconnectionDelayMax: &[]time.Duration{time.Second}[0]}
+		}
+		var link *vrig.Inproc
+		w.srv, w.mgr, link = vrig.NewSioPair(nil, mcfg)
+		w.link = link
+		for _, ns := range []string{"/", "/b"} {
+			w.srv.Of(ns).Use(func(s sio.ServerSocket, h *sio.Handshake) any {
+				s.OnEvent("m", func(int) {})
+				s.OnEvent("ma", func(n int, ack func(string)) { ack("ok") })
+				return nil
+			})
+			w.srv.Of(ns).OnConnection(func(sio.ServerSocket) {})
+		}
+		fired := false
+		once := func() bool { // the operation is issued from the first invocation of the handler only
+			first := false
+			w.v.Do(func() { first = !fired; fired = true })
+			return first
+		}
+		do := func() {
+			if once() {
+				op.run(w)
+			}
+		}
+		w.sock = w.mgr.Socket("/", nil)
+		w.sockB = w.mgr.Socket("/b", nil)
+		w.sock.OnEvent("n", hEvent)
+		ready, readyB := false, false
+		w.sock.OnConnect(func() {
+			w.v.Do(func() { ready = true })
+			if where == "connect-handler" {
+				do()
+			}
+		})
+		w.sockB.OnConnect(func() { w.v.Do(func() { readyB = true }) })
+		w.sock.OnDisconnect(func(sio.Reason) {
+			if where == "disconnect-handler" {
+				do()
+			}
+		})
+		w.sock.OnEvent("go", func() {
+			if where == "event-handler" {
+				do()
+			}
+		})
+		w.mgr.OnError(func(error) {
+			if strings.HasPrefix(where, "manager-error") {
+				do()
+			}
+		})
+		switch {
+		case strings.HasPrefix(where, "manager-error"):
+			// the dial fails: the link is down from the start
+			link.V.Do(func() { link.Down = true })
+			vsched.SetExploring(true)
+			w.sockB.Connect()
+			w.sock.Connect()
+		default:
+			w.sock.Connect()
+			vsched.Await(func() bool { return ready || fired })
+			w.sockB.Connect()
+			vsched.Await(func() bool { return readyB || fired })
+			vrig.Settle(time.Second)
+			vsched.SetExploring(true)
+			switch where {
+			case "disconnect-handler":
+				w.srv.Of("/").DisconnectSockets(false)
+			case "event-handler":
+				w.srv.Of("/").Emit("go")
+			case "ack-callback":
+				w.sock.Emit("ma", 1, func(string) { do() })
+			}
+		}
+		return func() vx.Result { return vx.Result{Outcome: fmt.Sprint("fired=", fired)} }
+	}
+	return sc
+}
+
 // ---------------------------------------------------------------- adapter alphabet
 
 type adOp struct {
@@ -355,6 +456,11 @@ func scenarios(tier string) []*vx.Scenario {
 			}
 		}
 	}
+	for _, where := range []string{"manager-error-after-failed-dial", "manager-error-while-reconnecting", "connect-handler", "disconnect-handler", "event-handler", "ack-callback"} {
+		for _, op := range cliHandlerOps {
+			s = append(s, cliInHandler(where, op, b))
+		}
+	}
 	for _, sa := range []bool{false, true} {
 		for i := range adOps {
 			for j := i; j < len(adOps); j++ {
@@ -373,7 +479,7 @@ func main() {
 	vx.Main(vx.Config{
 		Property:  "C16",
 		Level:     "model_checking",
-		Rule:      "every unordered pair (incl. an operation with itself) of operations from a 26-operation server alphabet (API calls and incoming traffic) over harness-implemented Engine.IO sockets, an 18-operation Go-client alphabet (a manager with two connected sockets; incl. the link breaking, which starts the reconnection machinery) over the in-process polling link, the same with the socket configured with Retries and AckTimeout (packet queue: 10 operations), and a 10-operation adapter alphabet (incl. a Broadcast whose argument cannot be encoded, recovered by the caller) (in-memory and session-aware) as a two-thread program, plus every server operation issued from inside an event handler, a disconnecting handler and an ack callback against two concurrent operations; all schedules to the deviation bound, each judged by the race detector (reports whose racing access lies in repository code), the deadlock detector and the held-mutex check. distinct_nontrivial = deviating schedules",
+		Rule:      "every unordered pair (incl. an operation with itself) of operations from a 26-operation server alphabet (API calls and incoming traffic) over harness-implemented Engine.IO sockets, an 18-operation Go-client alphabet (a manager with two connected sockets; incl. the link breaking, which starts the reconnection machinery) over the in-process polling link, the same with the socket configured with Retries and AckTimeout (packet queue: 10 operations), and a 10-operation adapter alphabet (incl. a Broadcast whose argument cannot be encoded, recovered by the caller) (in-memory and session-aware) as a two-thread program, plus every server operation issued from inside an event handler, a disconnecting handler and an ack callback against two concurrent operations, and 7 client operations issued from inside the manager's error handler (failed dial, with and without reconnection), a socket's connect and disconnect handlers, an event handler and an ack callback; all schedules to the deviation bound, each judged by the race detector (reports whose racing access lies in repository code), the deadlock detector and the held-mutex check. distinct_nontrivial = deviating schedules",
 		Scenarios: scenarios,
 		Budget: func(tier string) time.Duration {
 			if tier == "thorough" {
